@@ -150,6 +150,24 @@ HARNESSES.append(
          backends=["default", "kissat"],
          bound="table of 6 directories (root, lost+found, 4 more): parent (none or any table directory), '..' (any 32-bit value) and inode_dir_map "
                "membership symbolic for each; every parent function on 6 nodes, loops included; e2fsck -y, then a second run over the repaired table"))
+import importlib.util as _ilu, os as _os
+def _flush_primary():
+    """ext2fs_flush2 under MASTER_SB_ONLY (how e2fsck writes its repairs): every PRIMARY descriptor block reaches the place a normal
+    open reads it, with meta_bg too (source harness/C20/flush_backups.c)"""
+    p = _os.path.join(_os.path.dirname(_os.path.abspath(__file__)), "..", "C20", "spec.py")
+    sp = _ilu.spec_from_file_location("spec_C20_for_C01", p)
+    m = _ilu.module_from_spec(sp)
+    sp.loader.exec_module(m)
+    for h in m.HARNESSES:
+        if h["name"] == "flush_backups":
+            d = dict(h)
+            d["name"] = "flush_primary"
+            d["src"] = "../C20/flush_backups.c"
+            d["configs"] = [c for c in h["configs"] if c.get("MAXG") == 10 and c.get("DESC_SHIFT") == 3 and "LATE" not in c]
+            return [d]
+    raise RuntimeError("C20 flush_backups harness missing")
+HARNESSES += _flush_primary()
+
 MANIFEST = {
     "text": "Kernel-level slice (partial). Bounded-exhaustive: (1) the fix_problem() protocol over every entry of the real problem_table, every "
             "latch state and flag word: 'no' un-marks valid unless PR_NO_OK, 'yes' sets PROBLEMS_FIXED unless PR_NOT_A_FIX, -n never fixes and "
